@@ -23,12 +23,56 @@ class Ctx:
         self.seed = seed
         self.repo = Repo(repo_root)
         self.fold = Folder(self.repo)
+        self._install_resolver()
         self.obligations = []      # dicts
         self.violations = []       # dicts (subset of obligations)
         self.notes = {}
         self.assumptions = []
         self.consulted = set()
         self._caches = {}
+
+    def _install_resolver(self):
+        from . import flow
+        repo = self.repo
+
+        def owner(func_node):
+            return getattr(func_node, '_func', None)
+
+        def resolver(name, call, func_node):
+            fi = owner(func_node)
+            if fi is None:
+                return None
+            parts = name.split('.')
+            cands = []
+            if len(parts) == 1:
+                f = fi
+                while f is not None:            # nested helpers, innermost first
+                    cands.append(f"{fi.module.name}:{f.qualname}.{parts[0]}")
+                    f = f.outer
+                cands.append(f"{fi.module.name}:{parts[0]}")
+            elif len(parts) == 2 and parts[0] in ('self', 'cls'):
+                top = fi
+                while top.outer is not None:
+                    top = top.outer
+                if top.cls is not None:
+                    m = repo.find_method(top.cls, parts[1])
+                    if m is not None:
+                        return m.node
+            for c in cands:
+                if c in repo.funcs:
+                    return repo.funcs[c].node
+            # imported module-level function of the package
+            if len(parts) == 1:
+                hits = [f for f in repo.funcs.values() if f.qualname == parts[0]]
+                if len(hits) == 1:
+                    return hits[0].node
+            return None
+
+        def opaque(name):
+            last = name.split('.')[-1]
+            return any(f.node.name == last for f in repo.funcs.values())
+        flow.RESOLVER = resolver
+        flow.OPAQUE = opaque
 
     # -- recording ------------------------------------------------------
     def ok(self, rule, construct, detail=''):
@@ -77,6 +121,34 @@ class Ctx:
         else:
             self.undecided(rule, construct, why or 'shape not recognised')
         return bool(cond)
+
+    def tri(self, good, bad, rule, construct, detail_ok='', detail_bad='',
+            key=None, where=None, witness=None, why=''):
+        """Tri-state: positive evidence of a defect -> violation; recognised
+        good shape -> ok; anything else -> undecided."""
+        if bad:
+            self.violation(rule, construct, detail_bad, key, where, witness)
+            return False
+        if good:
+            self.ok(rule, construct, detail_ok)
+            return True
+        self.undecided(rule, construct, why or 'shape not recognised')
+        return None
+
+    def attempt(self, fn, *args, rule='SHAPE', construct=None, **kw):
+        """Run one group of rule instances.  A *vanished anchor* (function,
+        class, module, table) stays an AnalysisError (exit 2); a construct
+        that is present but whose shape the rule does not understand is
+        recorded as undecided and the run goes on."""
+        try:
+            return fn(self, *args, **kw)
+        except AnalysisError as e:
+            msg = str(e)
+            if msg.startswith(('function anchor', 'class anchor', 'module ', 'fold: no module', 'no package')) \
+                    or 'is not defined' in msg:
+                raise
+            self.undecided(rule, construct or getattr(fn, '__name__', 'rule group'), msg)
+            return None
 
     def floor(self, what, found, minimum):
         """Anchor floor: fewer instances than confirmed by hand means the
